@@ -48,7 +48,8 @@ What is mirrored, statement by statement:
 
 Modelled, not verified (parameters): the handler table (shape + behaviour of each
 method; behaviours complete exactly once — `ok`, `fail`, `panic`, `slow`/`late`
-= `ok` after 2 s / 42 s through the service's timer, `unser` = completes with a value the client
+= `ok` after 2 s / 42 s through the service's timer, `near`/`over` = `ok` after 29 s / 33 s (just inside /
+just outside the 30 s request timeout), `unser` = completes with a value the client
 serializer cannot marshal), the route function outcome
 (`Cfg.route`), the directory (`Cfg.dir`: name ↦ type and whether an actor lives
 behind the PID), JSON decoding (`Payload.valid v | undecodable`), result
@@ -66,7 +67,7 @@ inductive Shape | request | notify
   deriving DecidableEq, Repr
 
 /-- what a handler body does; every behaviour completes exactly once when given a completion -/
-inductive Beh | ok | fail | panic | slow | late | unser
+inductive Beh | ok | fail | panic | slow | late | unser | near | over
   deriving DecidableEq, Repr
 
 structure Handler where
@@ -135,7 +136,8 @@ inductive Result
   | error
   /-- a success response with an empty body -/
   | blank
-  /-- (handler level only, never on the wire) completed with a value `serializer.Marshal` refuses -/
+  /-- (handler level only, never on the wire) completed with a value `serializer.Marshal` refuses,
+  or failed with an error whose text is empty -/
   | unser
   deriving DecidableEq, Repr
 
@@ -158,6 +160,9 @@ inductive Effect
   deriving DecidableEq, Repr
 
 def slowMs : Nat := 2000
+/-- just inside / just outside the request timeout (30 s; the expiry scan fires within the next second) -/
+def nearMs : Nat := 29000
+def overMs : Nat := 33000
 def lateMs : Nat := 42000
 /-- `RequestTimeout` -/
 def requestTimeout : Nat := 30000
@@ -196,6 +201,8 @@ def behResult (svc g m : String) (v : Nat) : Beh → Nat × Result
   | .slow => (slowMs, .data svc g m v)
   | .late => (lateMs, .data svc g m v)
   | .unser => (0, .unser)
+  | .near => (nearMs, .data svc g m v)
+  | .over => (overMs, .data svc g m v)
 
 def tryCallCol (fx : Fixes) (c : Cfg) (svc type g m : String) (id : Nat) (pay : Payload) : CallRes :=
   match c.handlers type g m with
@@ -386,12 +393,34 @@ def zoo (g m : String) : Option Handler :=
   else if m = "boom" then some ⟨.request, .panic⟩
   else if m = "slow" then some ⟨.request, .slow⟩
   else if m = "late" then some ⟨.request, .late⟩
-  else if m = "nan" then some ⟨.request, .unser⟩
+  else if m = "s29" then some ⟨.request, .near⟩
+  else if m = "s33" then some ⟨.request, .over⟩
+  -- nan: completes with a value the client serializer refuses; fail0: fails with an error whose text is
+  -- EMPTY.  Both take the same two paths: the front's own completion sees a non-nil error → error
+  -- response; `ProcessForwardMsg` puts `err.Error()` = "" (resp. nothing, the Marshal error is ignored)
+  -- into `msgs.Response.Error`, and `Forward` reads "" as success → a success with an empty body
+  else if m = "nan" ∨ m = "fail0" then some ⟨.request, .unser⟩
   -- login / loginw: the handler binds a user id to the session and pushes the session to the front
   -- (without / with waiting for the push to be acknowledged) before it completes like `echo`; the
   -- bound id is stamped on later envelopes but nothing the client sees depends on it
   else if m = "login" ∨ m = "loginw" then some ⟨.request, .ok⟩
   else if m = "tell" then some ⟨.notify, .ok⟩
+  else none
+
+/-- a second group registered ONLY at the back-end types (chat, hall): handlers that break the
+"completes exactly once" rule.  `hang`: asynchronous, its continuation panics inside the service's
+timer (recovered and swallowed there) — it NEVER completes; for a forwarded request that is, for
+everything a client or a handler log can observe, a handler that completes after the request
+timeout (`late`): the client gets the timeout error.  `okboom`: completes, then panics in the same
+frame — `SafeCall` completes a second time with an error; the front relays the first reply and drops
+the second ("miss response"): for a forwarded request that is `ok`.  (Front-local, the same two
+handlers leave the client without any / with two responses — reproduced on the code, reported, not
+part of the run; see `Model/ClientShared.lean` events `lose` / `dup` for the proof that forwarded
+requests do not need the rule.) -/
+def zoob (g m : String) : Option Handler :=
+  if g ≠ "zoob" then none
+  else if m = "hang" then some ⟨.request, .late⟩
+  else if m = "okboom" then some ⟨.request, .ok⟩
   else none
 
 /-- node n1 (always Working): front `gate-1`, `chat-1`, `hall-1`, and `chat-9` which is listed in the
@@ -403,7 +432,10 @@ in the member order). -/
 def tieCfg (n2working : Bool) : Cfg where
   frontName := "gate-1"
   frontType := "gate"
-  handlers := fun t g m => if t = "gate" ∨ t = "chat" ∨ t = "hall" then zoo g m else none
+  handlers := fun t g m =>
+    if t = "gate" then zoo g m
+    else if t = "chat" ∨ t = "hall" then (if g = "zoob" then zoob g m else zoo g m)
+    else none
   dir := fun n =>
     if n = "gate-1" then some ⟨"gate", true⟩
     else if n = "chat-1" ∨ n = "chat-2" then some ⟨"chat", true⟩
